@@ -678,6 +678,7 @@ package tmi
 // A failing committed-header store is outside C09 (input messages and schedules): the load is taken to succeed.
 //@ iface tmstore.CommittedHeaderStore.LoadCommittedHeader(st, ctx, height)
 //@   ensures load-succeeds: result1 == nil
+//@   ensures stored-validator-powers-fit-64-bits: psum(result0.Header.NextValidatorSet.Validators, allbits(), len(result0.Header.NextValidatorSet.Validators)) <= MAXU64
 //@   modifies nothing
 //@ func Kernel.handleStateMachineRoundEntrance
 //@   property C09
@@ -691,3 +692,21 @@ package tmi
 //@   property C11 C09
 //@   ensures entrance-recorded-and-pending-jump-dropped: m.roundEntrance == re && m.lastSentVersion == 0 && m.jumpAhead == nil
 //@   modifies m.roundEntrance, m.lastSentVersion, m.jumpAhead
+
+// ---- start-up: the committing header restored from the round store is the most voted precommit target (C04, C10, C01) ----
+// The restored committing round holds a block with more than two thirds of the precommit power (it was committed before
+// the stop), so the most voted target is that block; a restart must not install a minority competitor as the
+// committing header (replayed headers would then be hash-linked to a block that was never committed).
+//@ func Kernel.loadInitialCommittingView
+//@   property C04 C10
+//@   option explicit-panics allowed
+//@   option nowrap off
+//@   requires k.rStore != nil && k.vStore != nil && k.cmspScheme != nil && k.sigScheme != nil && k.hStore != nil
+//@   requires psum(k.initialValSet.Validators, allbits(), len(k.initialValSet.Validators)) <= MAXU64
+//@   requires s.Committing.Version < MAXU32 && len(s.CommittingHeader.Hash) == 0
+//@   ensures restored-committing-header-is-the-most-voted-target: result == nil ==>
+//@       (forall x string :: {rawdom(dist.BlockVotePower)[x]} x in dist.BlockVotePower ==> dist.BlockVotePower[x] <= dist.BlockVotePower[bytes(s.CommittingHeader.Hash)])
+//@   modifies heap
+//@   loop 1 invariant max-so-far: (forall x string :: {visited(1)[x]} visited(1)[x] ==> dist.BlockVotePower[x] <= maxPower) &&
+//@       (maxPower > 0 ==> (committingHash in dist.BlockVotePower) && dist.BlockVotePower[committingHash] == maxPower) && (maxPower == 0 ==> committingHash == "")
+//@   loop 2 invariant chosen-or-unset: len(s.CommittingHeader.Hash) == 0 || bytes(s.CommittingHeader.Hash) == committingHash
